@@ -1,6 +1,9 @@
 use crate::bytes_serializable::BytesSerializable;
 use crate::error::IggyError;
+#[cfg(not(kani))]
 use ahash::AHashMap;
+#[cfg(kani)]
+use crate::verif_model::map::AHashMap;
 use bytes::{Buf, BufMut, Bytes, BytesMut};
 use serde::{Deserialize, Serialize};
 use std::fmt::Display;
